@@ -125,20 +125,39 @@ pub fn site(rng: &mut Rng, is_span: Option<bool>, max_fields: usize) -> Site {
         2 => rng.range(0, max_fields),
         _ => rng.range(0, max_fields.min(4)),
     };
-    let targets = ["app", "app::db", "app::dbx", "other", "", "app::db::pool"];
+    // incl. near misses of the `::` boundary rule (single colon, trailing separators)
+    let targets = ["app", "app::db", "app::dbx", "other", "", "app::db::pool", "app:db", "app:", "app::", "apps"];
     Site {
         is_span: is_span.unwrap_or_else(|| rng.chance(1, 2)),
         level: rng.below(5) as u8,
         name: if rng.chance(1, 8) { string(rng) } else { format!("n{}", rng.below(4)) },
         target: (*rng.pick(&targets)).to_owned(),
         module_path: if rng.chance(1, 2) { Some(format!("m{}", rng.below(2))) } else { None },
-        file: if rng.chance(1, 2) { Some(format!("src/f{}.rs", rng.below(2))) } else { None },
+        file: if rng.chance(1, 2) {
+            // sometimes with the other path separator (a guest built on Windows)
+            let sep = if rng.chance(1, 6) { '\\' } else { '/' };
+            Some(format!("src{sep}f{}.rs", rng.below(2)))
+        } else {
+            None
+        },
         line: if rng.chance(1, 2) { Some(rng.below(3) as u32 * 100 + 1) } else { None },
         fields: {
             let mut f: Vec<String> = (0..n).map(|i| format!("f{i}")).collect();
             if n > 0 && rng.chance(1, 8) {
                 f[0] = "message".into();
             }
+            // field lists that coincide once joined by a separator, empty names
+            if rng.chance(1, 12) {
+                f = match rng.below(6) {
+                    0 => vec!["a".into(), "b".into()],
+                    1 => vec!["a,b".into()],
+                    2 => vec!["a".into(), "b,".into()],
+                    3 => vec![String::new()],
+                    4 => vec!["a b".into(), "a".into(), "b".into()],
+                    _ => vec!["a, b".into()],
+                };
+            }
+            let n = f.len();
             // `span!("s", a = 1, b = 2, a = 3)` declares a name twice
             if n > 1 && rng.chance(1, 8) {
                 let (i, j) = (rng.below(n), rng.below(n));
